@@ -22,7 +22,7 @@ one() {
   python3 - "$d" "$caught" <<'PY'
 import json,sys
 d,caught=sys.argv[1:3]
-m=json.load(open(d+"/meta.json")); m["caught_by"]=caught.split(); m["first_violation"]=open(d+"/first_violation.txt").read()
+m=json.load(open(d+"/meta.json")); m["caught_by"]=caught.split(); m["first_violation"]=open(d+"/first_violation.txt",errors="replace").read()
 json.dump(m,open(d+"/meta.json","w"),indent=1)
 PY
   echo "$id ($prop, $tier): caught by:$caught"
